@@ -424,7 +424,7 @@ export class SchemaPrintingContext {
   }
 
   getRef(name: string): string {
-    return this.refPathTemplate.replace("{name}", name);
+    return this.refPathTemplate.replace("{name}", () => name);
   }
 
   hasDefinition(name: string): boolean {
